@@ -244,7 +244,8 @@ def prepare(work, tier, seed):
 
 
 def random_cases(rng, tier):
-    """Problems beyond the enumerated universe: up to 4 items, 4 classes, 1/4 and 1/8 lattices, any clip partition."""
+    """Problems beyond the enumerated universe: up to 4 items, 4 classes (6 items in clips of 1/2/3 events with <= 2 classes),
+    1/4 and 1/8 lattices, any clip partition."""
     want = 400 if tier == "quick" else 3000
     made = 0
     while made < want:
@@ -252,10 +253,15 @@ def random_cases(rng, tier):
         C = rng.choice([1, 2, 2, 3, 3, 3, 4, 4])
         u = rng.choice([4, 4, 8])
         n = rng.choice([1, 2, 3, 3, 4, 4])
+        # a quarter of the sound-event problems: six events in clips of 1, 2 and 3 events (clips of different weight, so
+        # the mean of the clip scores differs from a pooled mean over the events); small vocabulary keeps TLC's tie sets small
+        uneven = task in ("sec", "sed") and rng.random() < 0.25
+        if uneven:
+            C, n = rng.choice([1, 2, 2]), 6
         items = []
         # a third of the single-label problems: balanced truths (every occurring class, 'none' included, equally often)
         # whose items all have an exact top-score tie involving the true class (e.g. a tag at 1/2 against the 'none' mass)
-        tied = task != "cml" and C >= 2 and rng.random() < 0.33
+        tied = task != "cml" and C >= 2 and not uneven and rng.random() < 0.33
         if tied:
             K = rng.choice([k for k in (1, 2, 3, 4) if k <= C + 1])
             classes = rng.sample(range(C + 1), K)                    # 0 = 'none'
@@ -294,6 +300,13 @@ def random_cases(rng, tier):
         rng.shuffle(order)
         if task in ("cc", "cml"):
             clips = [[i] for i in order]
+        elif uneven:
+            sizes, clips, at = rng.sample([1, 2, 3], 3), [], 0
+            for z in sizes:
+                clips.append(order[at:at + z])
+                at += z
+            if rng.random() < 0.3:
+                clips.insert(rng.randrange(4), [])
         else:
             clips, cur = [], []
             for i in order:
